@@ -8,7 +8,7 @@ sys.path.insert(0, os.path.dirname(os.path.abspath(__file__)))
 import exttie
 V = os.path.dirname(os.path.dirname(os.path.abspath(__file__)))
 P = os.path.join(V, "pinned_src")
-for crate, files in (("rand_xoshiro", None), ("rand_xorshift", ["lib.rs"]), ("rand_jitter", ["lib.rs"])):
+for crate, files in (("rand_xoshiro", None), ("rand_xorshift", ["lib.rs"]), ("rand_jitter", ["lib.rs"]), ("rand_hc", ["hc128.rs"])):
     src = os.path.join("/repo", crate, "src")
     dst = os.path.join(P, crate, "src")
     os.makedirs(dst, exist_ok=True)
